@@ -222,6 +222,9 @@ type c10Hub struct {
 	lastLocal map[ch.NodeID]uint64
 	lastPhys  map[ch.NodeID]uint64
 
+	// history returns the director's step log for witnesses (may be nil).
+	history func() []string
+
 	clock atomic.Int64
 	obsMu sync.Mutex
 	retentionObs atomic.Int64
@@ -234,6 +237,11 @@ type c10Hub struct {
 	adoptBackward    atomic.Int64
 	appliesHeld      atomic.Int64
 	leaderAppendLast atomic.Uint64
+	suffixShortened  atomic.Bool
+	// leaderTrimmedAboveFollower is set once a leader trim removed records an
+	// ISR follower does not have: that follower can no longer catch up from
+	// the leader's log, so the director stops expecting appends to commit.
+	leaderTrimmedAboveFollower atomic.Bool
 }
 
 func c10NewHub(r *verifkit.Run) *c10Hub {
@@ -256,6 +264,13 @@ func (h *c10Hub) record(ev c10Event) {
 	h.mu.Unlock()
 }
 
+func (h *c10Hub) steps() []string {
+	if h.history == nil {
+		return nil
+	}
+	return h.history()
+}
+
 func (h *c10Hub) tail(n int) []c10Event {
 	h.mu.Lock()
 	defer h.mu.Unlock()
@@ -265,13 +280,19 @@ func (h *c10Hub) tail(n int) []c10Event {
 	return append([]c10Event(nil), h.events[len(h.events)-n:]...)
 }
 
-func (h *c10Hub) wrap(node ch.NodeID, base store.Factory) *c10Factory {
-	f := &c10Factory{hub: h, node: node, base: base}
+func c10NewFactory(node ch.NodeID, base store.Factory) *c10Factory {
+	f := &c10Factory{node: node, base: base}
 	f.resume = sync.NewCond(&f.pmu)
-	h.mu.Lock()
-	h.factories[node] = f
-	h.mu.Unlock()
 	return f
+}
+
+// attach makes h the hub that judges f's node from now on (one hub per case;
+// the factories and the runtimes above them live across cases).
+func (h *c10Hub) attach(f *c10Factory) {
+	h.mu.Lock()
+	h.factories[f.node] = f
+	h.mu.Unlock()
+	f.hub.Store(h)
 }
 
 // rawLoad reads LEO/HW/CheckpointHW of node's store for the hub's channel
@@ -330,7 +351,7 @@ func (h *c10Hub) observeRetention(node ch.NodeID, site string, load func() (stor
 }
 
 type c10Factory struct {
-	hub  *c10Hub
+	hub  atomic.Pointer[c10Hub] // hub of the case currently driving this node
 	node ch.NodeID
 	base store.Factory
 
@@ -345,7 +366,7 @@ func (f *c10Factory) ChannelStore(key ch.ChannelKey, id ch.ChannelID) (store.Cha
 	if err != nil {
 		return nil, err
 	}
-	return &c10Store{ChannelStore: cs, f: f, key: key}, nil
+	return &c10Store{ChannelStore: cs, f: f, hub: f.hub.Load(), key: key}, nil
 }
 
 func (f *c10Factory) setPaused(p bool) {
@@ -369,6 +390,7 @@ func (f *c10Factory) heldApplies() int {
 type c10Store struct {
 	store.ChannelStore
 	f   *c10Factory
+	hub *c10Hub // hub current when the handle was opened
 	key ch.ChannelKey
 }
 
@@ -379,20 +401,53 @@ func c10ErrStr(err error) string {
 	return err.Error()
 }
 
+// mine reports whether this handle belongs to the channel of the case that is
+// currently running on the node.
 func (s *c10Store) mine() bool {
-	s.f.hub.mu.Lock()
-	defer s.f.hub.mu.Unlock()
-	return s.key == s.f.hub.key
+	h := s.hub
+	if h == nil || h != s.f.hub.Load() {
+		return false
+	}
+	h.mu.Lock()
+	defer h.mu.Unlock()
+	return s.key == h.key
+}
+
+// hold blocks the caller while this node is paused (follower durability held
+// back). Only calls for the current case's channel are held.
+func (s *c10Store) hold() {
+	f := s.f
+	f.pmu.Lock()
+	if f.paused {
+		f.held++
+		s.hub.appliesHeld.Add(1)
+		for f.paused {
+			f.resume.Wait()
+		}
+		f.held--
+	}
+	f.pmu.Unlock()
+}
+
+func (s *c10Store) isLeaderNode() bool {
+	s.hub.mu.Lock()
+	defer s.hub.mu.Unlock()
+	return s.hub.leader == s.f.node
 }
 
 func (s *c10Store) AppendLeader(ctx context.Context, req store.AppendLeaderRequest) (store.AppendLeaderResult, error) {
+	if s.mine() && !s.isLeaderNode() {
+		// durable-quorum-log mode: a follower persists replicated proposals
+		// through AppendLeader (exact base offset), this is its "apply".
+		s.hold()
+	}
 	res, err := s.ChannelStore.AppendLeader(ctx, req)
 	if s.mine() {
-		s.f.hub.record(c10Event{Node: uint64(s.f.node), Kind: "append_leader", Arg: uint64(len(req.Records)), Res: res.BaseOffset, Res2: res.LastOffset, Err: c10ErrStr(err)})
-		if err == nil && len(req.Records) > 0 {
+		s.hub.record(c10Event{Node: uint64(s.f.node), Kind: "append_leader", Arg: uint64(len(req.Records)), Arg2: req.Committed, Res: res.BaseOffset, Res2: res.LastOffset, Err: c10ErrStr(err)})
+		if err == nil && len(req.Records) > 0 && s.isLeaderNode() {
 			for {
-				cur := s.f.hub.leaderAppendLast.Load()
-				if res.LastOffset <= cur || s.f.hub.leaderAppendLast.CompareAndSwap(cur, res.LastOffset) {
+				cur := s.hub.leaderAppendLast.Load()
+				if res.LastOffset <= cur || s.hub.leaderAppendLast.CompareAndSwap(cur, res.LastOffset) {
 					break
 				}
 			}
@@ -402,18 +457,8 @@ func (s *c10Store) AppendLeader(ctx context.Context, req store.AppendLeaderReque
 }
 
 func (s *c10Store) ApplyFollower(ctx context.Context, req store.ApplyFollowerRequest) (store.ApplyFollowerResult, error) {
-	f := s.f
 	if s.mine() {
-		f.pmu.Lock()
-		if f.paused {
-			f.held++
-			f.hub.appliesHeld.Add(1)
-			for f.paused {
-				f.resume.Wait()
-			}
-			f.held--
-		}
-		f.pmu.Unlock()
+		s.hold()
 	}
 	res, err := s.ChannelStore.ApplyFollower(ctx, req)
 	if s.mine() {
@@ -421,7 +466,59 @@ func (s *c10Store) ApplyFollower(ctx context.Context, req store.ApplyFollowerReq
 		if len(req.Records) > 0 {
 			first = req.Records[0].Index
 		}
-		f.hub.record(c10Event{Node: uint64(f.node), Kind: "apply_follower", Arg: first, Arg2: req.LeaderHW, Res: res.LEO, Res2: res.CheckpointHW, Err: c10ErrStr(err)})
+		s.hub.record(c10Event{Node: uint64(s.f.node), Kind: "apply_follower", Arg: first, Arg2: req.LeaderHW, Res: res.LEO, Res2: res.CheckpointHW, Err: c10ErrStr(err)})
+	}
+	return res, err
+}
+
+// Optional capabilities needed by the durable-quorum-log store adapter are
+// forwarded to the wrapped store (the memory and MessageDB stores have them).
+
+func (s *c10Store) LoadExactState(ctx context.Context) (store.ExactState, error) {
+	if l, ok := s.ChannelStore.(store.ExactStateLoader); ok {
+		return l.LoadExactState(ctx)
+	}
+	return store.ExactState{}, ch.ErrInvalidConfig
+}
+
+func (s *c10Store) LoadExactRecoveryState(ctx context.Context, indexes []uint64) (store.ExactRecoveryState, error) {
+	if l, ok := s.ChannelStore.(store.ExactRecoveryStateLoader); ok {
+		return l.LoadExactRecoveryState(ctx, indexes)
+	}
+	return store.ExactRecoveryState{}, ch.ErrInvalidConfig
+}
+
+func (s *c10Store) ReadExactRecoveryPage(ctx context.Context, req store.ExactRecoveryPageRequest) (store.ExactRecoveryPage, error) {
+	if l, ok := s.ChannelStore.(store.ExactRecoveryPageReader); ok {
+		return l.ReadExactRecoveryPage(ctx, req)
+	}
+	return store.ExactRecoveryPage{}, ch.ErrInvalidConfig
+}
+
+func (s *c10Store) LoadExactProposal(ctx context.Context, req store.ExactProposalRequest) (store.ExactProposal, bool, error) {
+	if l, ok := s.ChannelStore.(store.ExactProposalLookup); ok {
+		return l.LoadExactProposal(ctx, req)
+	}
+	return store.ExactProposal{}, false, ch.ErrInvalidConfig
+}
+
+// ReplaceRecoverySuffix may shorten a log. The "durable LEO only grows"
+// argument of the trim/read judges does not hold after such a replacement, so
+// the hub remembers it and those judges stand down for the rest of the case.
+func (s *c10Store) ReplaceRecoverySuffix(ctx context.Context, req store.ReplaceRecoverySuffixRequest) (store.ReplaceRecoverySuffixResult, error) {
+	l, ok := s.ChannelStore.(store.RecoverySuffixReplacer)
+	if !ok {
+		return store.ReplaceRecoverySuffixResult{}, ch.ErrInvalidConfig
+	}
+	if s.mine() && !s.isLeaderNode() {
+		s.hold()
+	}
+	res, err := l.ReplaceRecoverySuffix(ctx, req)
+	if s.mine() {
+		if req.KeepThrough < req.Expected.LEO {
+			s.hub.suffixShortened.Store(true)
+		}
+		s.hub.record(c10Event{Node: uint64(s.f.node), Kind: "replace_suffix", Arg: req.KeepThrough, Arg2: req.Expected.LEO, Res: res.LastOffset, Err: c10ErrStr(err)})
 	}
 	return res, err
 }
@@ -429,7 +526,7 @@ func (s *c10Store) ApplyFollower(ctx context.Context, req store.ApplyFollowerReq
 func (s *c10Store) StoreCheckpoint(ctx context.Context, cp ch.Checkpoint) error {
 	err := s.ChannelStore.StoreCheckpoint(ctx, cp)
 	if s.mine() {
-		s.f.hub.record(c10Event{Node: uint64(s.f.node), Kind: "checkpoint", Arg: cp.HW, Err: c10ErrStr(err)})
+		s.hub.record(c10Event{Node: uint64(s.f.node), Kind: "checkpoint", Arg: cp.HW, Err: c10ErrStr(err)})
 	}
 	return err
 }
@@ -438,7 +535,7 @@ func (s *c10Store) AdoptRetentionBoundary(ctx context.Context, through uint64, c
 	if !s.mine() {
 		return s.ChannelStore.AdoptRetentionBoundary(ctx, through, cursor)
 	}
-	h := s.f.hub
+	h := s.hub
 	before, _ := s.ChannelStore.LoadRetentionState(ctx)
 	retained, err := s.ChannelStore.AdoptRetentionBoundary(ctx, through, cursor)
 	after, _ := h.observeRetention(s.f.node, "adopt", func() (store.RetentionState, error) { return s.ChannelStore.LoadRetentionState(ctx) })
@@ -453,7 +550,7 @@ func (s *c10Store) LoadRetentionState(ctx context.Context) (store.RetentionState
 	if !s.mine() {
 		return s.ChannelStore.LoadRetentionState(ctx)
 	}
-	return s.f.hub.observeRetention(s.f.node, "load", func() (store.RetentionState, error) { return s.ChannelStore.LoadRetentionState(ctx) })
+	return s.hub.observeRetention(s.f.node, "load", func() (store.RetentionState, error) { return s.ChannelStore.LoadRetentionState(ctx) })
 }
 
 // TrimMessagesThrough is the instant where the physical-trim clauses are
@@ -474,7 +571,7 @@ func (s *c10Store) TrimMessagesThrough(ctx context.Context, through uint64, opts
 	if !s.mine() {
 		return s.ChannelStore.TrimMessagesThrough(ctx, through, opts)
 	}
-	h := s.f.hub
+	h := s.hub
 	node := s.f.node
 	stBefore, _ := s.ChannelStore.Load(ctx)
 	rsBefore, _ := s.ChannelStore.LoadRetentionState(ctx)
@@ -508,14 +605,16 @@ func (s *c10Store) TrimMessagesThrough(ctx context.Context, through uint64, opts
 				"node": node, "requested_through": through, "deleted_through": deletedThrough, "deleted": res.Deleted,
 				"checkpoint_hw_before": stBefore.CheckpointHW, "leo_before": stBefore.LEO,
 				"checkpoint_hw_after": stAfter.CheckpointHW, "leo_after": stAfter.LEO,
-				"physical_before": rsBefore.PhysicalRetentionThroughSeq, "events": h.tail(30)})
+				"physical_before": rsBefore.PhysicalRetentionThroughSeq, "events": h.tail(30), "history": h.steps()})
 		}
 	}
 	h.mu.Lock()
 	leader := h.leader
 	isr := append([]ch.NodeID(nil), h.isr...)
 	h.mu.Unlock()
-	if node == leader {
+	if node == leader && h.suffixShortened.Load() {
+		h.r.Count("live.note.leader_trim_not_judged_after_suffix_replacement", 1)
+	} else if node == leader {
 		h.leaderTrims.Add(1)
 		lagging := false
 		for _, fnode := range isr {
@@ -530,6 +629,7 @@ func (s *c10Store) TrimMessagesThrough(ctx context.Context, through uint64, opts
 				lagging = true
 			}
 			if res.Deleted > 0 && deletedThrough > fst.LEO {
+				h.leaderTrimmedAboveFollower.Store(true)
 				kind := "follower-lagging"
 				if fst.LEO == 0 {
 					kind = "follower-leo-0"
@@ -537,7 +637,7 @@ func (s *c10Store) TrimMessagesThrough(ctx context.Context, through uint64, opts
 				c10V(h.r, "leader-trim-above-isr-follower-leo:"+kind, map[string]any{
 					"leader": node, "follower": fnode, "follower_durable_leo_after_trim": fst.LEO,
 					"requested_through": through, "deleted_through": deletedThrough, "deleted": res.Deleted,
-					"leader_leo": stAfter.LEO, "leader_checkpoint_hw": stAfter.CheckpointHW, "isr": isr, "events": h.tail(40)})
+					"leader_leo": stAfter.LEO, "leader_checkpoint_hw": stAfter.CheckpointHW, "isr": isr, "events": h.tail(40), "history": h.steps()})
 			}
 		}
 		if lagging {
